@@ -184,12 +184,16 @@ fn exec_stdin() -> i32 {
 
 /// Executes `plans` in order in a fresh process; returns the violations of the last plan.
 fn exec_child(plans: &[Plan]) -> Option<Vec<Violation>> {
+    exec_child_full(plans).map(|r| r.violations)
+}
+
+fn exec_child_full(plans: &[Plan]) -> Option<RunResult> {
     let exe = std::env::current_exe().ok()?;
     let mut ch = Command::new(exe).arg("exec").stdin(Stdio::piped()).stdout(Stdio::piped()).stderr(Stdio::null()).spawn().ok()?;
     ch.stdin.take()?.write_all(serde_json::to_string(plans).ok()?.as_bytes()).ok()?;
     let o = ch.wait_with_output().ok()?;
     let out: ExecOut = serde_json::from_slice(&o.stdout).ok()?;
-    out.results.last().map(|r| r.violations.clone())
+    out.results.into_iter().last()
 }
 
 fn fails_with(plans: &[Plan], kind: &str, known: &[String]) -> bool {
@@ -402,6 +406,10 @@ struct Replay {
     violation: Violation,
     minimised: bool,
     candidates_tried: u64,
+    /// what the last plan did when the file was written: one line per operation
+    /// (thread, op, value, format specification, outcome, sink writes, fault, text)
+    #[serde(default)]
+    trace: Vec<String>,
     /// plans to execute in order in one fresh process; the last one violates
     plans: Vec<Plan>,
     replay: String,
@@ -539,8 +547,10 @@ fn batch(args: &[String]) -> i32 {
         } else {
             (plans, 0, false)
         };
-        let final_v = exec_child(&plans)
-            .and_then(|vs| vs.into_iter().find(|x| x.kind == v.kind))
+        let final_run = exec_child_full(&plans);
+        let trace = final_run.as_ref().map(|r| r.log.clone()).unwrap_or_default();
+        let final_v = final_run
+            .and_then(|r| r.violations.into_iter().find(|x| x.kind == v.kind))
             .unwrap_or(v.clone());
         let path = format!("{}/C15-{}-seed{}-run{}.json", replay_dir, amt::BACKEND, seed, idx);
         let rp = Replay {
@@ -552,6 +562,7 @@ fn batch(args: &[String]) -> i32 {
             violation: final_v.clone(),
             minimised,
             candidates_tried: tried,
+            trace,
             plans,
             replay: format!("/verif/check C15 --replay {}", path),
         };
